@@ -39,8 +39,8 @@ observable because unchecked rows report no outputs); the third keeps the row's 
 checked/unchecked flag and *all* its other entries — the row's expected values included; every other
 input entry is held in all three. -/
 theorem C05_triple_columns (tc : TestCase) (r : CRow) (h : hasInputCFrom tc r.entries 0 = true) :
-    tripleOf tc r = [⟨clockBlank tc 0 r.entries, r.line, false⟩, ⟨clockBlank tc 1 r.entries, r.line, false⟩,
-                     ⟨clockLow tc 0 r.entries, r.line, r.upd⟩] ∧
+    tripleOf tc r = [⟨clockBlank tc 0 r.entries, r.line, false, r.xcols⟩, ⟨clockBlank tc 1 r.entries, r.line, false, r.xcols⟩,
+                     ⟨clockLow tc 0 r.entries, r.line, r.upd, r.xcols⟩] ∧
     (∀ (v : Int64) (j : Nat), (clockLow tc v r.entries)[j]? =
         r.entries[j]?.map (fun e => if isInputC tc j e then .num v else e)) ∧
     (∀ (v : Int64) (j : Nat), (clockBlank tc v r.entries)[j]? =
@@ -57,8 +57,8 @@ theorem C05_no_clock (tc : TestCase) (r : CRow) (h : hasInputCFrom tc r.entries 
 its `0`-variant followed by the rows of its `1`-variant (so the right-most `X` varies slowest, the
 left-most fastest, `0` before `1`); that column really holds `X` and really is an input column. -/
 theorem C05_split (tc : TestCase) (k : Nat) (r : CRow) (i : Nat) (h : lastInputX tc r.entries = some i) :
-    expR tc (k + 1) r = expR tc k { r with entries := r.entries.set i (.num 0) } ++
-                        expR tc k { r with entries := r.entries.set i (.num 1) } ∧
+    expR tc (k + 1) r = expR tc k { r with entries := r.entries.set i (.num 0), xcols := i :: r.xcols } ++
+                        expR tc k { r with entries := r.entries.set i (.num 1), xcols := i :: r.xcols } ∧
     r.entries[i]? = some .x ∧ entryIsInput tc i = true := by
   have := lastX_some_is tc r.entries 0 i h
   exact ⟨by simp [expR, h], by simpa using this.1, this.2⟩
@@ -107,7 +107,7 @@ theorem C05_get_row_pops (tc : TestCase) (fuel : Nat) (s : RowIt) (top : CRow) (
   simp only [hemp, Bool.false_eq_true, if_false, hp]
   cases genInputs tc top.entries (changedFlags s.prev top.entries) with
   | ok ins =>
-    cases genExpected tc top.entries with
+    cases genExpected tc top.entries top.xcols with
     | ok exps => exact ⟨_, Or.inl rfl⟩
     | err e => exact ⟨default, Or.inr ⟨_, rfl⟩⟩
     | panic m => exact ⟨default, Or.inr ⟨_, rfl⟩⟩
@@ -120,7 +120,7 @@ def exTc : TestCase :=
     inIdx := [.entry 0 0, .entry 1 1, .entry 2 2], expIdx := [.entry 3 3], reads := [] }
 
 example : numInputX exTc [.c, .x, .x, .num 1] = 2 ∧ blankOutOfRange exTc 4 = false ∧
-    (expR exTc 2 ⟨[.c, .x, .x, .num 1], 7, true⟩).map (fun r => (r.entries, r.upd)) =
+    (expR exTc 2 { entries := [.c, .x, .x, .num 1], line := 7, upd := true }).map (fun r => (r.entries, r.upd)) =
       [([.num 0, .num 0, .num 0, .x], false), ([.num 1, .num 0, .num 0, .x], false), ([.num 0, .num 0, .num 0, .num 1], true),
        ([.num 0, .num 1, .num 0, .x], false), ([.num 1, .num 1, .num 0, .x], false), ([.num 0, .num 1, .num 0, .num 1], true),
        ([.num 0, .num 0, .num 1, .x], false), ([.num 1, .num 0, .num 1, .x], false), ([.num 0, .num 0, .num 1, .num 1], true),
@@ -134,7 +134,8 @@ full clock triple.  (`expR`, the recursive specification the other theorems use,
 theorem C05_closed_form (tc : TestCase) (r : CRow) :
     expR tc (numInputX tc r.entries) r =
       (List.range (2 ^ numInputX tc r.entries)).flatMap
-        (fun j => tripleOf tc { r with entries := assignFrom tc r.entries 0 j }) :=
+        (fun j => tripleOf tc { r with entries := assignFrom tc r.entries 0 j,
+                                       xcols := inputXColsFrom tc r.entries 0 ++ r.xcols }) :=
   expR_closed tc _ r rfl
 
 /-- what `assignFrom` does, spelled out on an example: `X 5 X` in three input columns, assignment 2 = binary 10:
@@ -142,6 +143,43 @@ the left `X` gets bit 0 (= 0), the right `X` bit 1 (= 1) -/
 example (tc : TestCase) (h : ∀ i, entryIsInput tc i = true) :
     assignFrom tc [.x, .num 5, .x] 0 2 = [.num 0, .num 5, .num 1] := by
   simp [assignFrom, isInputX, h]
+
+/-- every input column that holds `X` is among the `X` columns -/
+theorem mem_inputXCols (tc : TestCase) : ∀ (es : List REntry) (c j : Nat) (e : REntry), es[j]? = some e →
+    isInputX tc (c + j) e = true → (c + j) ∈ inputXColsFrom tc es c
+  | [], c, j, e, h, _ => by simp at h
+  | a :: es, c, 0, e, h, hx => by
+    simp only [List.getElem?_cons_zero, Option.some.injEq] at h
+    subst h
+    simp only [Nat.add_zero] at hx ⊢
+    simp [inputXColsFrom, hx]
+  | a :: es, c, j+1, e, h, hx => by
+    simp only [List.getElem?_cons_succ] at h
+    have ih := mem_inputXCols tc es (c + 1) j e h (by rw [show c + 1 + j = c + (j + 1) by omega]; exact hx)
+    rw [show c + 1 + j = c + (j + 1) by omega] at ih
+    simp only [inputXColsFrom]
+    split
+    · exact List.mem_cons_of_mem _ ih
+    · exact ih
+
+/-- **An `X` stays a don't-care for the expected value, also in a column that drives an input** (fix F23).  Every row a
+source row stands for remembers the input columns whose `X` was expanded (`C05_closed_form`: `xcols` holds all of them),
+and an expected entry taken from such a column is `X` — not the 0 or 1 the input side received. -/
+theorem C05_expanded_x_expected_x (tc : TestCase) (entries : List REntry) (xcols : List Nat) (col sig : Nat) (e : ExpEntry)
+    (hx : xcols.contains col = true) (h : expectedFor tc entries xcols (.entry col sig) = .ok e) : e.value = .x := by
+  simp only [expectedFor] at h
+  split at h
+  · cases h
+  · simp only [hx, if_true, Res.ok.injEq] at h
+    rw [← h]
+
+/-- … and the rows of the expansion do remember them: in every row of the closed form, a column that held `X` in an input
+column of the source row is among the remembered ones -/
+theorem C05_expansion_remembers_x (tc : TestCase) (r : CRow) (j : Nat) (e : REntry) (hj : r.entries[j]? = some e)
+    (hx : isInputX tc j e = true) : (inputXColsFrom tc r.entries 0 ++ r.xcols).contains j = true := by
+  have := mem_inputXCols tc r.entries 0 j e hj (by simpa using hx)
+  simp only [Nat.zero_add] at this
+  simp [this]
 
 /-- **An expansion survives the failure of one of its calls.**  When the call made for one row of an expansion fails —
 the driver returns an error, or its answer is refused — the rows of the expansion that have not been handed out yet stay
